@@ -369,6 +369,8 @@ def verdep1(ctx: Ctx, chk) -> None:
                     ok, why = True, "property getter"
                 elif isinstance(par, ast.Compare) and len(par.ops) == 1 and isinstance(par.ops[0], (ast.Is, ast.IsNot)) and isinstance(par.comparators[0], ast.Constant) and par.comparators[0].value is None:
                     ok, why = True, "`is None` test"
+                elif isinstance(par, ast.BoolOp) and isinstance(par.op, ast.Or) and par.values[0] is node and len(par.values) == 2 and isinstance(ctx.prog.parents.get(par), ast.Call) and par in ctx.prog.parents[par].args and (norm(ctx.prog.parents[par].func).endswith("get_protocol") or any(nm.endswith(".get_protocol") for nm in callee_names_safe(ctx, f, ctx.prog.parents[par]))):
+                    ok, why = True, "the stored version, or the default while none is known, handed to the protocol lookup (a derived protocol property)"
                 elif isinstance(par, ast.Call) and node in par.args and any(nm in (tables.DISPATCH, tables.DISPATCH_OUT) or nm.endswith((".set_protocol", ".get_protocol")) for nm in callee_names_safe(ctx, f, par)):
                     ok, why = True, "handed to the handler lookup / the schema"
                 elif isinstance(par, ast.Call) and isinstance(ctx.prog.parents.get(par), ast.Raise):
